@@ -15,6 +15,7 @@ stands / temp file + os.replace) applies is decided from the recorded system cal
 Oracle: the property text (complete entry or behaves as absent, never raises, never a
 tree from a partial entry, older entries readable)."""
 import builtins
+import io
 import json
 import os
 import pickle
@@ -36,33 +37,44 @@ OPT_KW = dict(methods=["greedy"], max_repeats=2, optlib="random", parallel=False
 
 # ---------------------------------------------------------------------------
 # crash injection (runs inside the forked writer)
-class KFile:
-    def __init__(self, inj, real, rel):
-        self.inj, self.real, self.rel = inj, real, rel
+class KRaw(io.FileIO):
+    """The raw (unbuffered) file under CPython's own buffered writer.  Only what really reaches
+    the file descriptor is an event: `write` here is the write(2) the BufferedWriter issues when
+    its user-space buffer fills, on flush() and on close().  A kill inside a write lets k bytes
+    through; whatever is still in the BufferedWriter's buffer is lost with the process."""
 
-    def write(self, data):
-        data = bytes(data)
-        k = self.inj.event(("write", self.rel, len(data)))
+    def __init__(self, inj, path, rawmode, rel):
+        super().__init__(path, rawmode)
+        self._inj, self._rel = inj, rel
+
+    def write(self, b):
+        data = bytes(b)
+        k = self._inj.event(("write", self._rel, len(data)))
         if k is not None:
-            self.real.write(data[:k])
+            if k:
+                super().write(data[:k])
             os._exit(9)
-        self.real.write(data)
-        return len(data)
-
-    def flush(self):
-        pass
+        return super().write(data)
 
     def close(self):
-        if not self.real.closed:
-            self.inj.event(("close", self.rel))
-            self.real.close()
+        if not self.closed:
+            self._inj.event(("close", self._rel))
+        super().close()
 
-    def __enter__(self):
-        return self
 
-    def __exit__(self, *a):
-        self.close()
-        return False
+def kopen(inj, file, mode, rel, buffering=-1):
+    """what builtins.open(file, mode) returns for a binary write mode, with KRaw underneath:
+    the same buffered class and the same buffer size CPython would choose"""
+    raw = KRaw(inj, file, mode.replace("b", ""), rel)
+    if buffering == 0:
+        return raw
+    if buffering < 0:
+        buffering = getattr(raw, "_blksize", 0) or io.DEFAULT_BUFFER_SIZE
+        if buffering <= 1:
+            buffering = io.DEFAULT_BUFFER_SIZE
+    if "+" in mode:
+        return io.BufferedRandom(raw, buffering)
+    return io.BufferedWriter(raw, buffering)
 
 
 class Injector:
@@ -109,9 +121,10 @@ class Injector:
 
         def open_(file, mode="r", *a, **k):
             r = inj.rel(file) if isinstance(file, (str, os.PathLike)) else None
-            if r is not None and not r.startswith("^") and any(c in mode for c in "wa+x"):
+            if r is not None and not r.startswith("^") and "b" in mode and any(c in mode for c in "wa+x"):
                 inj.event(("open", r, mode))
-                return KFile(inj, inj.real_open(file, mode, buffering=0), r)
+                buffering = a[0] if a else k.get("buffering", -1)
+                return kopen(inj, file, mode, r, buffering)
             return inj.real_open(file, mode, *a, **k)
 
         def mkdir_(path, *a, **k):
@@ -275,8 +288,17 @@ def build_scenario(sc, td):
         info.append({"key": h, "con": dict(opt._cache[h])})
     # the value to store for the target (query 0): a different complete entry for the same contraction
     q = sc["pool"][0]
-    t2 = ctg.ContractionTree.from_path(list(q[0]), q[1], dict(q[2]), path=sc["alt_path"])
-    new = {"path": t2.get_path(), "score": t2.get_score(), "sliced_inds": ()}
+    import random as _random
+    r2 = _random.Random(repr(sc["alt_path"]))
+    cand = sc["alt_path"]
+    for _ in range(50):
+        t2 = ctg.ContractionTree.from_path(list(q[0]), q[1], dict(q[2]), path=cand)
+        new = {"path": t2.get_path(), "score": t2.get_score(), "sliced_inds": ()}
+        if tuple(map(tuple, new["path"])) != tuple(map(tuple, info[0]["con"]["path"])):
+            break       # distinguishable from the entry found by the search (old vs new)
+        cand = gen.rand_path(r2, len(q[0]))
+    if sc.get("pad"):
+        new["pad"] = "x" * sc["pad"]
     if sc["case"] == "new":
         # the target has not been stored yet
         k = info[0]["key"]
@@ -375,7 +397,7 @@ def run_jobs(ctx, jobs, timeout=1700):
 
 
 # ---------------------------------------------------------------------------
-def gen_scenario(rng, case, split, mode, nest=()):
+def gen_scenario(rng, case, split, mode, nest=(), pad=0):
     while True:
         base = gen.rand_net(rng, nmin=3, nmax=5, max_ix=6, dmax=4, p_scalar=0.0, p_disconnected=0.0)
         if sum(len(t) for t in base[0]) >= 3:
@@ -389,7 +411,10 @@ def gen_scenario(rng, case, split, mode, nest=()):
                 break
         pool.append((list(o[0]), tuple(o[1]), dict(o[2])))
     return {"case": case, "split": split, "mode": mode, "pool": pool, "nest": list(nest),
-            "alt_path": gen.rand_path(rng, len(base[0])), "fresh_subdir": rng.random() < 0.7}
+            "alt_path": gen.rand_path(rng, len(base[0])), "fresh_subdir": rng.random() < 0.7,
+            # pad > 0: the stored dict carries an extra string of that length, so that the pickle
+            # exceeds the buffered writer's buffer (real writes happen before close)
+            "pad": pad}
 
 
 def weights(events):
@@ -443,6 +468,16 @@ def run(ctx):
     for rep in range(ctx.n(1, 4)):
         for case, split, mode in combos:
             scen.append((gen_scenario(rng, case, split, mode), "all" if not quick else "stride"))
+    # entries larger than the buffered writer's buffer: a real write happens inside pickle.dump,
+    # before close()
+    for case, split in (("overwrite", True), ("new", False)):
+        scen.append((gen_scenario(rng, case, split, "dd", pad=9000), "stride"))
+    # > 64 KiB: the pickler emits several writes and the tail stays in the user-space buffer until
+    # close().  Oracle only: the byte-granular model is quadratic in the entry size.
+    for case, split in (("overwrite", False), ("new", True)):
+        hs = gen_scenario(rng, case, split, "dd", pad=70000)
+        hs["no_model"] = True
+        scen.append((hs, "stride"))
     for rep in range(ctx.n(2, 6)):
         scen.append((gen_scenario(rng, "newdir", rng.choice([True, False]), rng.choice(["dd", "opt"]),
                                   nest=("x", "y")), "stride" if small else "all"))
@@ -487,7 +522,7 @@ def run(ctx):
     prelude = {}
     variant_seen = set()
     for jid, ((sc, pts), res) in enumerate(zip(flat, results)):
-        desc = {k: sc[k] for k in ("case", "split", "mode", "pool", "nest", "alt_path")}
+        desc = {k: sc[k] for k in ("case", "split", "mode", "pool", "nest", "alt_path", "pad")}
         if res is None or "error" in res:
             ctx.fail("crash scenario could not be run", {"scenario": desc, "error": (res or {}).get("error")},
                      found_input=False)
@@ -511,7 +546,8 @@ def run(ctx):
                 b = pickle.dumps(e["con"])
             entry_bytes.append(b)
         for b in set(entry_bytes + [res["new_bytes"]]):
-            for k in range(len(b)):
+            ks = range(len(b)) if len(b) < 20000 else sorted(set(range(0, len(b), 7)) | set(range(len(b) - 64, len(b))))
+            for k in ks:
                 try:
                     pickle.loads(b[:k])
                     ctx.fail("codec hypothesis fails: a strict prefix of a pickled entry unpickles",
@@ -521,11 +557,14 @@ def run(ctx):
                 except Exception as e:
                     ctx.fail("codec hypothesis fails: a strict prefix raises %r (not caught by the retry loop)" % (e,),
                              {"bytes": b.hex(), "prefix": k}, found_input=False)
-            ctx.count("codec_prefixes_checked", len(b))
+            ctx.count("codec_prefixes_checked", len(ks))
         for (kill, deep), ob in zip(pts, res["points"]):
             rep = {"scenario": desc, "kill_call": kill[0], "kill_after_bytes": kill[1],
                    "calls": [list(e) for e in events], "writer_log": ob["log"][-4:],
-                   "directory_after_crash": [(list(p), None if b is None else b.hex()) for p, b in (ob["snap"] or [])]}
+                   "directory_after_crash": [
+                       (list(p), None if b is None else (b.hex() if len(b) <= 400 else
+                                                         b[:100].hex() + "...(%d bytes)" % len(b)))
+                       for p, b in (ob["snap"] or [])]}
             if any("writer_exception" in l for l in ob["log"]):
                 ctx.fail("the writer raised instead of storing", rep)
                 continue
@@ -617,7 +656,7 @@ def run(ctx):
                     else:
                         ctx.fail("search() raised %r" % (r.get("raise"),), rep_q, key=known)
             # ---------------- model -----------------------------------------------------------
-            if sc["case"] == "newdir" or snap is None:
+            if sc["case"] == "newdir" or snap is None or sc.get("no_model"):
                 continue
             if new_con is None:
                 continue
